@@ -57,6 +57,13 @@ structure Problem (α : Type) where
   bounds : Nat → α × α
   cons : List (Con α)
   callback : Bool
+  /-- `options['ftol']` / `options['maxiter']`; `none` = not passed (SciPy's default). -/
+  ftol : Option α := none
+  maxiter : Option Nat := none
+
+/-- the `options` entry of the keyword arguments (`ftol`, `maxiter`; `disp` is always `False`). -/
+def Problem.withOpts (pb : Problem α) (ftol : α) (maxiter : Nat) : Problem α :=
+  { pb with ftol := some ftol, maxiter := some maxiter }
 
 /-- `(device.bounds[:, 0] == device.bounds[:, 1]).all()` (solve.py:61); true on an empty table. -/
 def allFixed (N : Nat) (b : Nat → α × α) : Bool :=
@@ -112,19 +119,20 @@ def Con.withinTol (tol : α) (c : Con α) (x : Nat → α) : Bool :=
   !(decide (c.fn x < -tol) || (c.isEq && decide (tol < c.fn x)))
 
 /-- `solve(device, p, s0, solver_options, prox, cb)` (solve.py:42-93).  `tol` is
-`_solver_options['ftol']` (default `1e-6`, overridable through `solver_options`); the other solver
-options only reach the optimiser.  `.error e` is `raise OptimizationException(...)`.
+`_solver_options['ftol']` (default `1e-6`), `maxiter` is `_solver_options['maxiter']` (default `1000`),
+both overridable through `solver_options`; they are handed to the optimiser as `options` (`disp` is
+always `False`), and `ftol` is also the shortcut's tolerance.  `.error e` is `raise OptimizationException(...)`.
 The all-slots-fixed shortcut does not call the optimiser: it evaluates every constraint of
 `device.constraints` at the flattened lower bounds and raises when one fails `withinTol`, else returns
 the lower bounds reshaped. -/
-def solve (d : SDev α) (P : Mat α) (s0? : Option (Nat → α)) (prox : Option α) (cb : Bool) (tol : α)
+def solve (d : SDev α) (P : Mat α) (s0? : Option (Nat → α)) (prox : Option α) (cb : Bool) (tol : α) (maxiter : Nat)
     (minimize : Problem α → Result α) : Except (OptExc α) (Mat α × Option (Result α)) :=
   if allFixed d.dim d.flatBounds then
     if (d.cons.map (MCon.toFlat d.n)).all (fun c => c.withinTol tol (fun k => (d.flatBounds k).1)) then
       .ok (unflat d.n (fun k => (d.flatBounds k).1), none)
     else .error .fixedInfeasible
   else
-    let o := minimize (solveProblem d P (startPoint d s0?) prox cb)
+    let o := minimize ((solveProblem d P (startPoint d s0?) prox cb).withOpts tol maxiter)
     if o.success then .ok (unflat d.n o.x, some o) else .error (.result o)
 
 /-! ## step -/
@@ -132,9 +140,14 @@ def solve (d : SDev α) (P : Mat α) (s0? : Option (Nat → α)) (prox : Option 
 /-- `if not o.success: if o.status == 8: warn else: raise` — the result is used iff this holds. -/
 def Result.accepted (o : Result α) : Bool := o.success || o.status == 8
 
-/-- the `minimize` call of `utils.project(p, x0, bounds, constraints)` (utils.py:85-101). -/
+/-- `1e-9`, the `ftol` of `utils.project` (written with the core numerals only). -/
+def projFtol : α := 1 / npow ((2 : α) * (2 * 2 + 1)) 9
+
+/-- the `minimize` call of `utils.project(p, x0, bounds, constraints)` (utils.py:85-101), with its fixed
+options `ftol = 1e-9`, `maxiter = 200` (`step` passes it no `solver_options`). -/
 def projProblem (N : Nat) (p x0 : Nat → α) (bounds : Nat → α × α) (cons : List (Con α)) : Problem α :=
-  { dim := N,
+  { ftol := some projFtol, maxiter := some 200,
+    dim := N,
     fn := fun s => sqDist N s p,
     x0 := x0,
     jac := some (fun s k => 2 * (s k - p k)),
@@ -145,7 +158,8 @@ def projProblem (N : Nat) (p x0 : Nat → α) (bounds : Nat → α × α) (cons 
 /-- `s + x*(s_next - s)`. -/
 def stepPoint (s q : Nat → α) (x : α) : Nat → α := fun k => s k + x * (q k - s k)
 
-/-- the limited minimisation (solve.py:26-32): one variable on `[0, 1]`, start `0`, no Jacobian. -/
+/-- the limited minimisation (solve.py:26-32): one variable on `[0, 1]`, start `0`, no Jacobian;
+`options = solver_options` (empty by default: SciPy's own `ftol` / `maxiter`). -/
 def lineProblem (d : SDev α) (P : Mat α) (s q : Nat → α) : Problem α :=
   { dim := 1,
     fn := fun x => d.flatCost P (stepPoint s q (x 0)),
